@@ -143,7 +143,18 @@ class CompositeTransform(SpatialTransform):
     ) -> Union[TCompositeTransform, Optional[Tensor]]:
         r"""Get or set data tensor on which transformations are conditioned."""
         if args or kwargs:
-            return shallow_copy(self).condition_(*args, **kwargs)
+            # Shallow copy shares the transformation modules with this composite transformation,
+            # hence use shallow copies of these which are conditioned on the given arguments instead
+            copy = shallow_copy(self)
+            copy._transforms = ModuleDict(
+                {
+                    name: transform.condition(*args, **kwargs)
+                    if isinstance(transform, CompositeTransform)
+                    else shallow_copy(transform)
+                    for name, transform in self.named_transforms()
+                }
+            )
+            return copy.condition_(*args, **kwargs)
         return self._args, self._kwargs
 
     def condition_(self: TCompositeTransform, *args, **kwargs) -> TCompositeTransform:
